@@ -40,6 +40,32 @@ FINITE_TRUE = {("k < numpy.inf", True), ("k != numpy.inf", True), ("numpy.isfini
 FINITE_FALSE = {(t, not b) for t, b in FINITE_TRUE}
 
 
+def _implied(conds, key):
+    """do the branch conditions (comparisons of ONE variable with numeric literals) imply the comparison `key`?  Decided on the finite set of order regions
+    the literals cut the line into (each literal, the gaps between them, both ends)."""
+    import re
+    pat = re.compile(r"^\s*([A-Za-z_][\w.]*)\s*(==|!=|<=|>=|<|>)\s*(-?\d+(?:\.\d+)?)\s*$")
+    mk = pat.match(key)
+    if not mk:
+        return False
+    var = mk.group(1)
+    cons = []
+    for c, taken in conds:
+        m = pat.match(c)
+        if not m:
+            if " and " in c or " or " in c:
+                continue    # its conjuncts are listed separately when decided
+            return False
+        if m.group(1) != var:
+            return False
+        cons.append((m.group(2), float(m.group(3)), taken))
+    lits = sorted({v for _, v, _ in cons} | {float(mk.group(3))})
+    pts = [lits[0] - 1.0] + [x for i, v in enumerate(lits) for x in ([v] + ([(v + lits[i + 1]) / 2.0] if i + 1 < len(lits) else []))] + [lits[-1] + 1.0]
+    ops = {"==": lambda a, b: a == b, "!=": lambda a, b: a != b, "<": lambda a, b: a < b, "<=": lambda a, b: a <= b, ">": lambda a, b: a > b, ">=": lambda a, b: a >= b}
+    sat = [x for x in pts if all(ops[o](x, v) == taken for o, v, taken in cons)]
+    return bool(sat) and all(ops[mk.group(2)](x, float(mk.group(3))) for x in sat)
+
+
 def check_linkage(prog, rep):
     """every return path of the linkage-decay helpers, classified by the branch conditions it passed, normalises to the closed form of that case"""
     for name, table in LINK.items():
@@ -62,6 +88,9 @@ def check_linkage(prog, rep):
                 keys = [k for k, grp in (("finite", FINITE_TRUE), ("inf", FINITE_FALSE)) if cs & grp]
             else:
                 keys = [k for k in want if (k, True) in cs]
+                if not keys:
+                    # the conditions may imply a case without spelling it (nself >= 0 and not nself == 0  =>  nself > 0): decide on the order regions of the compared constants
+                    keys = [k for k in want if " and " not in k and _implied(conds, k)]
                 # the combined key `a and b` is also satisfied by both conjuncts taken separately
                 for k in want:
                     if " and " in k and all((c.strip(), True) in cs for c in k.split(" and ")) and k not in keys:
